@@ -126,7 +126,7 @@ def plans(draw, sers=SERS, algs=None, encs=None, max_recipients=4, allow_zip=Tru
     return {"ser": ser, "enc": enc, "zip": zipv, "plaintext_hex": pt.hex(), "aad_hex": None if aad is None else aad.hex(),
             "protected": protected, "unprotected": unprotected, "recipients": recipients, "sender": sender, "place": place, "headerless": headerless,
             # role-specific key metadata: producer's key objects list only the producing operations, the consumer's the consuming ones
-            "role": draw(st.sampled_from([None, None, None, "ops", "use", "ops+use"]))}
+            "role": draw(st.sampled_from([None, None, None, "ops", "use", "ops+use", "ops-min", "ops-min+use"]))}
 
 
 def plan_label(plan) -> tuple:
@@ -158,9 +158,16 @@ def allow_kw(plan, **extra):
     return {"algorithms": ALL_NAMES}
 
 
-def role_params(role, side: str, base=None):
+def role_params(role, side: str, base=None, alg: str | None = None):
     out = dict(base or {})
-    if role and "ops" in role:
+    if role and "ops-min" in role and alg is not None:
+        # exactly the one operation of the key's own side: RSA key encryption "encrypt" / "decrypt", AES and GCM key wrapping
+        # "wrapKey" / "unwrapKey", key agreement and PBES2 "deriveKey"
+        one = (("encrypt", "decrypt") if alg in rjwe.RSA_ALGS else ("wrapKey", "unwrapKey") if (alg in rjwe.KW_SIZE or alg in rjwe.GCMKW_SIZE) else
+               ("deriveKey", "deriveKey") if (alg in rjwe.PBES2 or alg.startswith("ECDH")) else None)
+        if one:
+            out["key_ops"] = [one[0] if side == "enc" else one[1]]
+    elif role and "ops" in role:
         out["key_ops"] = ["encrypt", "wrapKey", "deriveKey"] if side == "enc" else ["decrypt", "unwrapKey", "deriveKey"]
     if role and "use" in role:
         out["use"] = "enc"
@@ -176,7 +183,7 @@ def jose_encrypt(plan, keymode: str = "attached", form: str = "dict", preset_epk
     sender = jkey(gk.key_from_record(plan["sender"]), form, True, role_params(role, "enc")) if plan["sender"] else None
     recs = plan["recipients"]
     keys = [jkey(rk.public_of(gk.key_from_record(r["key"])) if gk.key_from_record(r["key"])["kty"] != "oct" else gk.key_from_record(r["key"]),
-                 form, False if r["key"]["kty"] != "oct" else True, role_params(role, "enc", {"kid": r["kid"]} if r["kid"] else None)) for r in recs]
+                 form, False if r["key"]["kty"] != "oct" else True, role_params(role, "enc", {"kid": r["kid"]} if r["kid"] else None, r["alg"])) for r in recs]
     if plan["ser"] == "compact":
         prot = copy.deepcopy(plan["protected"])
         h = _rec_header(plan, recs[0], keymode != "attached" and recs[0]["kid"] is not None)
@@ -202,7 +209,7 @@ def jose_encrypt(plan, keymode: str = "attached", form: str = "dict", preset_epk
 
 
 def jose_private_keys(plan, form: str = "dict"):
-    return [jkey(gk.key_from_record(r["key"]), form, True, role_params(plan.get("role"), "dec", {"kid": r["kid"]} if r["kid"] else None)) for r in plan["recipients"]]
+    return [jkey(gk.key_from_record(r["key"]), form, True, role_params(plan.get("role"), "dec", {"kid": r["kid"]} if r["kid"] else None, r["alg"])) for r in plan["recipients"]]
 
 
 def jose_decrypt(token, plan, mode: str = "all", form: str = "dict", index: int = 0):
